@@ -62,6 +62,9 @@ def run(P, rep, tier):
     from . import c06
 
     rep.attempt(c06.r_unlink_threading, P, rep, ctx, "C07.R7")
+    # "exactly the nodes that carry an object": what copy / move / delete leave attached decides every later query
+    # (node-operation rules of C06.R2: metadata copied only when wanted, destroyed or re-registered, links repaired)
+    rep.attempt(c06.r2_node_ops, P, rep, ctx)
     rep.floor("C07.R1", 5)
     rep.floor("C07.R2", 7)
     rep.floor("C07.R3", 3)
